@@ -593,3 +593,45 @@ Definition greek_table (tn en pn : nat -> id) (on sn : nat -> nat -> id)
 (* two renaming tables rename every symbol of [keys] alike *)
 Definition same_renaming (d d' : list (id * id)) (keys : list id) : bool :=
   forallb (fun k => Pos.eqb (ren d k) (ren d' k)) keys.
+
+
+(* ---- the components of a model that define its function, and refactorings that act on them -----------------
+   statements, parameters (name, initial estimate, fix), random variables, dependent variables *)
+Record pmodel := mkPM {
+  pm_stmts : list stm;
+  pm_params : list (id * Q * bool);
+  pm_rvs : list rdist;
+  pm_dvs : list id
+}.
+
+(* convert_model(model, 'generic'): model/external/generic/generic.py passes every component on;
+   convert_model(model, 'nonmem'): model/external/nonmem/model.py replaces the components of a template model by
+   the given ones and calls update_source, which must not change them *)
+Definition convert_generic (m : pmodel) : pmodel :=
+  mkPM (pm_stmts m) (pm_params m) (pm_rvs m) (pm_dvs m).
+Definition convert_nonmem (m : pmodel) : pmodel :=
+  mkPM (pm_stmts m) (pm_params m) (pm_rvs m) (pm_dvs m).
+
+(* RandomVariables.parameter_names: the symbols of the variances *)
+Definition rdist_params (d : rdist) : list id :=
+  match d with DNormal _ v => v | DJoint _ m => flat_map (fun row => flat_map (fun x => x) row) m end.
+
+(* split_joint_distribution(model, names): unjoin, drop the parameters the random variables do not mention any
+   more; statements and dependent variables are not touched *)
+Definition split_joint (inds : list id) (m : pmodel) : pmodel :=
+  let r' := unjoin inds (pm_rvs m) in
+  let before := flat_map rdist_params (pm_rvs m) in
+  let after := flat_map rdist_params r' in
+  mkPM (pm_stmts m)
+       (filter (fun p => negb (memp (fst (fst p)) before && negb (memp (fst (fst p)) after))) (pm_params m))
+       r' (pm_dvs m).
+
+(* what create_joint_distribution may do to the components (its choice of covariance parameters and their
+   initial estimates is C11's subject): statements and dependent variables untouched, the same random variable
+   names, no parameter lost except variance parameters of the old distributions (a covariance of a block that
+   an eta leaves is dropped) *)
+Definition same_structure (m m' : pmodel) : bool :=
+  list_eqb Pos.eqb (pm_dvs m) (pm_dvs m')
+  && setp_eqb (flat_map rdist_names (pm_rvs m)) (flat_map rdist_names (pm_rvs m'))
+  && forallb (fun p => memp (fst (fst p)) (flat_map rdist_params (pm_rvs m))
+                       || memp (fst (fst p)) (map (fun q => fst (fst q)) (pm_params m'))) (pm_params m).
